@@ -1,6 +1,6 @@
 """C09 - computing changes is pure; performing them touches only what was announced.
 
-Space: refactoring kinds (19 request builders) x projects (plain two-module; with a sibling
+Space: refactoring kinds (21 request builders) x projects (plain two-module; with a sibling
 out-of-project folder on python_path whose module is imported and whose names are used; with
 ignored resources given by a plain name and by a `//` wildcard pattern and imported by a
 normal module; with a syntactically broken module) x EVERY identifier offset of every
@@ -38,6 +38,9 @@ PROJECTS = {
                 "prefs": {"ignored_resources": ["xold", "xgen//*_pb2.py", ".ropeproject"]}, "sibling": {}},
     "broken": {"files": {"xa.py": XA, "xb.py": XB, "xbroken.py": "import xa\ndef oops(:\n    return xa.f(1)\n"}, "prefs": {}, "sibling": {}},
 }
+for _spec in PROJECTS.values():
+    _spec["files"]["xdest"] = DIR
+    _spec["files"]["xdest/__init__.py"] = ""
 IGNORED_PREFIXES = {"ignored": ["xold/", "xold", "xgen/a_pb2.py", "xgen/sub/b_pb2.py"]}
 
 
@@ -52,6 +55,7 @@ def kinds():
         "extract-method": lambda p, r, o, e, res: extract.ExtractMethod(p, r, o, e).get_changes("zz_meth"),
         "inline": lambda p, r, o, e, res: inline.create_inline(p, r, o).get_changes(resources=res) if res is not None else inline.create_inline(p, r, o).get_changes(),
         "move": lambda p, r, o, e, res: move.create_move(p, r, o).get_changes(p.get_file("xb.py"), resources=res),
+        "move-to-folder": lambda p, r, o, e, res: move.create_move(p, r, o).get_changes(p.get_folder("xdest"), resources=res),
         "change-signature": lambda p, r, o, e, res: change_signature.ChangeSignature(p, r, o).get_changes([change_signature.ArgumentNormalizer()], resources=res),
         "add-parameter": lambda p, r, o, e, res: change_signature.ChangeSignature(p, r, o).get_changes([change_signature.ArgumentAdder(0, "zz", default="0")], resources=res),
         "introduce-parameter": lambda p, r, o, e, res: introduce_parameter.IntroduceParameter(p, r, o).get_changes("zz_par"),
@@ -82,7 +86,7 @@ class C09(Check):
     pid = "C09"
     level = "exploration"
     rule = ("cases = (project in {plain, external sibling folder on python_path, ignored resources (plain name and `//` pattern) "
-            "imported by a normal module, module with a syntax error}, module, refactoring kind in 15 offset-based + 5 module-based "
+            "imported by a normal module, module with a syntax error}, module, refactoring kind in 16 offset-based + 5 module-based "
             "kinds, identifier token offset (every token of every non-ignored module), resources in {None, [this file], [other file]}); "
             "evaluations = one get_changes (+ do when it succeeds) per case with full snapshots of the project root and the sibling "
             "folder before/after; non-trivial = requests that produced a change set which was then performed; distinct by "
